@@ -217,7 +217,17 @@ def run(ctx):
                 ctx.add(RULE, f, 'insert-stores-payload', 'ok' if ok else 'violation',
                         'every path through insert stores the payload into a slot of the arena' if ok else 'some path through insert returns without storing the payload anywhere: the entry is silently dropped', props, f.line)
             if f.trait_method() == 'delete':
-                why = delete_removes_found(prog, f, tree, removals)
+                # the removal may be reached through a function of the same type that hands its index parameter on unchanged
+                # and runs the removal on every path (the type's own delete_by_index: HANDLE holds it to exactly that)
+                rem2 = dict(removals)
+                for g in fns:
+                    if g.path in rem2 or g is f or g.is_closure or g.body.arg_count != 2:
+                        continue
+                    rc = [c for c in g.body.calls if prog.resolve(c) is not None and prog.resolve(c).path in removals]
+                    if len(rc) == 1 and len(rc[0].args) >= 2 and strip(rc[0].args[1]).kind == 'param' and strip(rc[0].args[1]).args[0] == 2 \
+                            and (rc[0].point[0] == 0 or all(r == rc[0].point[0] or not g.body.cfg.paths_avoiding(0, r, {rc[0].point[0]}) for r in g.body.cfg.returns)):
+                        rem2[g.path] = g
+                why = delete_removes_found(prog, f, tree, rem2)
                 ctx.add(RULE, f, 'delete-removes-found', 'violation' if why else 'ok', why or 'on every path on which the search found the key the removal transaction is run on the index found', props, f.line)
         # emptiness and root writers
         for f in fns:
